@@ -327,6 +327,10 @@ inductive Op
   | demonitorScope (s a : Nat)
   | exit (a : Nat)
   | newRemote (a : Nat)         -- bookkeeping: actor `a` has a remote id
+  /-- `ActorCell::drain()` through any reference, however stale. The status word moves to `Draining`
+  at most (which pg treats like `Running`), and NOT AT ALL when the actor is already `≥ Stopping`:
+  pg's view — the four indexes and the set of stopping actors — is untouched. -/
+  | drain (a : Nat)
   deriving DecidableEq, Repr
 
 def step (st : State) : Op → State × List Ev
@@ -338,6 +342,7 @@ def step (st : State) : Op → State × List Ev
   | .demonitorScope s a => (demonitorScope st s a, [])
   | .exit a => exit st a
   | .newRemote a => ({ st with remote := ins a st.remote }, [])
+  | .drain _ => (st, [])
 
 def run (st : State) : List Op → State
   | [] => st
